@@ -51,6 +51,31 @@ func init() {
 				strings.Contains(top[i+2], "saveRespToCache(msgKey, r, "), true,
 				"Cache.Exec: `rBefore := qCtx.R()` directly in front of `next.ExecNext`, and the only store is behind `r != nil && rBefore != r`")
 		}
+		if lazy != nil {
+			// the background refresh of a lazy cache: the same rule as in Exec, on the copy of the context
+			var lit *ast.FuncLit
+			ast.Inspect(lazy.Body, func(x ast.Node) bool {
+				if f, ok := x.(*ast.FuncLit); ok && lit == nil {
+					lit = f
+				}
+				return lit == nil
+			})
+			ok := false
+			if lit != nil {
+				var top []string
+				for _, st := range lit.Body.List {
+					top = append(top, ex.str(st))
+				}
+				i := indexOf(top, "rBefore := qCtx.R()")
+				j := indexOf(top, "r := qCtx.R()")
+				ok = i >= 0 && i+1 < len(top) && top[i+1] == "err := next.ExecNext(ctx, qCtx)" && j > i+1 && j+1 < len(top) &&
+					strings.HasPrefix(top[j+1], "if r != nil && rBefore != r {") && strings.Contains(top[j+1], "saveRespToCache(msgKey, r, ") &&
+					strings.Count(strings.Join(top, " "), "next.ExecNext(") == 1
+			}
+			ex.setBool("c04LazyStoresOnlyNewResponse", ok && c04Assignments(ex, lazy, "rBefore") == 1 && c04Assignments(ex, lazy, "r") == 1 &&
+				strings.Count(ex.str(lazy.Body), "saveRespToCache(") == 1, true,
+				"Cache.doLazyUpdate: the refresh reads `rBefore := qCtx.R()` of the copy directly in front of `next.ExecNext`, and its only store is behind `r != nil && rBefore != r`")
+		}
 		if exec != nil && lazy != nil && get != nil && save != nil {
 			// every call that reaches the backend takes the key as its first argument
 			firstArgs := func(fd *ast.FuncDecl) (n int, ok bool) {
